@@ -98,6 +98,8 @@ type State struct {
 	shadow    map[string]any
 	freshRefs map[string]bool
 	composed  bool
+	// locations another goroutine may write at any time (captured by a closure that was handed to a callee): reads are unconstrained
+	volatile map[string]bool
 }
 
 func (s *State) top() *Frame { return s.frames[len(s.frames)-1] }
@@ -110,6 +112,12 @@ func (s *State) clone() *State {
 	}
 	for k, v := range s.freshRefs {
 		n.freshRefs[k] = v
+	}
+	if len(s.volatile) > 0 {
+		n.volatile = make(map[string]bool, len(s.volatile))
+		for k, v := range s.volatile {
+			n.volatile[k] = v
+		}
 	}
 	n.pc = append(make([]string, 0, len(s.pc)+16), s.pc...)
 	n.trace = append([]string(nil), s.trace...)
@@ -221,6 +229,15 @@ func (s *State) rootTerm(a *Addr) string {
 
 func (s *State) load(a *Addr) V {
 	w := s.vc.w
+	if s.volatile != nil {
+		key := a.Heap + "|" + a.Ref.T
+		if s.volatile[key] {
+			// interference: the value is whatever another goroutine last wrote
+			cur := s.heapGet(a.Heap, a.HSort)
+			_, inner := splitArraySort(a.HSort)
+			s.heapSet(a.Heap, a.HSort, sto(cur, a.Ref.T, s.fresh("volatile", inner)))
+		}
+	}
 	term := s.rootTerm(a)
 	so := a.ValSort
 	for _, fi := range a.Path {
